@@ -5,9 +5,9 @@ import (
 	"sort"
 	"strings"
 
+	"github.com/ipld/go-ipld-prime"
 	"github.com/ipld/go-ipld-prime/codec/dagjson"
 	"github.com/ipld/go-ipld-prime/datamodel"
-	"github.com/ipld/go-ipld-prime"
 
 	"github.com/ucan-wg/go-ucan/pkg/policy/selector"
 
@@ -269,9 +269,9 @@ func C12() *engine.Check {
 		Property: "C12",
 		Level:    "model_checking",
 		Subs: []*engine.Sub{{
-			Name: "resolve-vs-segmentwise-reference",
-		Repeat: true,
-			Rule: "every sequence of segments from a 101-segment alphabet (fields .a .b [\"a\"] [\"\"], indexes 0 1 -1 -2 5 -5, slices over bounds {none,-4,-1,0,1,4}, iterator; each with and without '?'; plus 9 leading-zero spellings of indexes and slice bounds) parsed from its text, resolved on " + fmt.Sprint(len(data)) + " IPLD values of every kind; compared with the fold of a per-segment reference (Python slice clamping, negative indexes, by-rune string slices) and, differentially, with resolving the last segment on the implementation's own result for the prefix; non-trivial = not (both error)",
+			Name:   "resolve-vs-segmentwise-reference",
+			Repeat: true,
+			Rule:   "every sequence of segments from a 101-segment alphabet (fields .a .b [\"a\"] [\"\"], indexes 0 1 -1 -2 5 -5, slices over bounds {none,-4,-1,0,1,4}, iterator; each with and without '?'; plus 9 leading-zero spellings of indexes and slice bounds) parsed from its text, resolved on " + fmt.Sprint(len(data)) + " IPLD values of every kind; compared with the fold of a per-segment reference (Python slice clamping, negative indexes, by-rune string slices) and, differentially, with resolving the last segment on the implementation's own result for the prefix; non-trivial = not (both error)",
 			Bound: func(t string) string {
 				return fmt.Sprintf("selectors of 0..%d segments (101^k each) x %d values", tierN(t, 2, 3), len(data))
 			},
